@@ -2,7 +2,7 @@
    (each replayed on the real code by ./check C11; fixed in the worktree unless
    noted). *)
 From Coq Require Import ZArith List Bool.
-From VV Require Import Serial.SerialDefs Serial.SerialExtraProofs.
+From VV Require Import Serial.SerialDefs Serial.SerialFailProofs Serial.SerialExtraProofs.
 Import ListNotations.
 Local Open Scope Z_scope.
 
@@ -25,3 +25,16 @@ Theorem C11_empty_fitness_roundtrip_refuted : forall s17 read_f rest t,
   fit_load read_f (fit_save s17 [] ++ rest) t = fit_load read_f rest t.
 Proof. exact empty_fitness_invisible. Qed.
 Print Assumptions C11_empty_fitness_roundtrip_refuted.
+
+(* summary<T>::load of the pinned tree reads elapsed.count() (a 64-bit count of
+   milliseconds, saved in full) into an `int`: the summary of a run longer than
+   2^31 ms saves but does not load; with the reader of the full width it does.
+   (fix: wt2-c11) *)
+Theorem C11_summary_elapsed_int_roundtrip_refuted :
+  exists x : summary vec_ind,
+  ret (summary_load read_u64 vec_ind ga_load vec_default read_i32
+         (summary_save show_u vec_ind ga_save vec_empty x) x) = false /\
+  summary_load read_u64 vec_ind ga_load vec_default read_i64
+         (summary_save show_u vec_ind ga_save vec_empty x) x = (true, x, [10]).
+Proof. eexists. exact summary_elapsed_int_witness. Qed.
+Print Assumptions C11_summary_elapsed_int_roundtrip_refuted.
